@@ -22,6 +22,10 @@ type thread struct {
 // (0 = no bound). Lock operations and thread start/end are always scheduling points.
 var MaxPerSite = 0
 
+// MaxPerFn bounds the coarse function-entry scheduling points (label "fn:<pkg>.<func>") in the same way;
+// 0 switches them off altogether.
+var MaxPerFn = 0
+
 type Point struct {
 	Enabled []int // canonical order: the running thread first if it is still enabled, then ascending ids
 	Running int   // thread that ran up to this point (-1 at the start)
@@ -47,7 +51,18 @@ func Yield(label string) {
 		return
 	}
 	t := s.cur
-	if MaxPerSite > 0 && strings.Contains(label, "#") {
+	if strings.HasPrefix(label, "fn:") {
+		if MaxPerFn == 0 {
+			return
+		}
+		if t.seen == nil {
+			t.seen = map[string]int{}
+		}
+		t.seen[label]++
+		if t.seen[label] > MaxPerFn {
+			return
+		}
+	} else if MaxPerSite > 0 && strings.Contains(label, "#") {
 		if t.seen == nil {
 			t.seen = map[string]int{}
 		}
